@@ -22,6 +22,8 @@ RULE = ('Hypothesis draws mode sizes (order 1..4, N <= 36 quick / 128 thorough),
         '(I-h/2 A)x+ = (I+h/2 A)x and the documented HOD three-term recurrence with its documented start, with the same '
         'normalisation fed back; the three defect formulas on arbitrary TT lists; ordering invariants of the adaptive method. '
         'Non-trivial: varying steps, normalize > 0, mals/lu, HOD order >= 4, an order-1 operator, or complex data.')
+RULE += (' ' + 'Added classes: size-1 modes, order 5, MALS started from a rank-one guess (dense operator, repeats 3, chains (3,2,2,2,3), (2,3,2,2,3), (2,)*6, (2,)*5), mixed operand dtypes, rescaled states; the inputs of the adaptive method are compared bit by bit.')
+
 ASSUMPTIONS = [
     'oracle: dense NumPy recurrences; operators converted with vt/dense.tt_svd',
     'no effective truncation: threshold at its default (1e-12) and max_rank at least the maximal ranks; implicit schemes start '
@@ -32,7 +34,7 @@ ASSUMPTIONS = [
     'error estimators: defect relative to ||x_i|| (Euler schemes) and to ||(I + h/2 A) x_i|| (trapezoidal rule), as implemented',
 ]
 
-DIMS = [d for d in [[2], [4], [6], [2, 2], [2, 3], [3, 3], [4, 4], [2, 2, 2], [3, 2, 2], [3, 3, 3], [2, 3, 4], [2, 2, 2, 2], [4, 4, 4], [2, 4, 4, 2], [2, 1, 3], [1, 3], [2, 1], [1, 2, 2], [3, 2, 1]]
+DIMS = [d for d in [[2], [4], [6], [2, 2], [2, 3], [3, 3], [4, 4], [2, 2, 2], [3, 2, 2], [3, 3, 3], [2, 3, 4], [2, 2, 2, 2], [4, 4, 4], [2, 4, 4, 2], [2, 1, 3], [1, 3], [2, 1], [1, 2, 2], [3, 2, 1], [2, 2, 2, 2, 2]]
         if int(np.prod(d)) <= NMAX]
 STEPS = st.sampled_from([0.01, 0.05, 0.1, 0.2, 0.35, 0.5])
 
@@ -97,6 +99,16 @@ def euler_case(draw):
          'x_rank': draw(st.integers(1, 3)), 'x_scale_exp': draw(st.sampled_from([0, 0, 0, -9, 7])),
          # mixed dtypes among operator / state / guess of a complex problem; a max_rank equal to the largest representable rank
          'real_part': draw(st.sampled_from([None, None, 'op', 'state', 'guess'])), 'tight_max_rank': draw(st.sampled_from([False, False, True]))}
+    if draw(st.sampled_from([False, False, False, False, True])):
+        # MALS may start from a guess of rank one when the operator is generic (dense): the two-site solutions then have full rank,
+        # the ranks grow to the maximal ones within two sweeps, and from then on every micro system is posed in complete frames, so
+        # the solve is exact -- provided the repeat count reaches the inner solver.  Mode sizes whose maximal ranks (6 resp. 8)
+        # cannot be reached from rank one within a single sweep.  (Not for structured operators or across size-1 modes: there
+        # two-site sweeps without enrichment stagnate at low rank, 1e-2 on the unchanged tree.)
+        c.update({'tt_solver': 'mals', 'scheme': draw(st.sampled_from(['implicit', 'trapezoidal'])), 'local': False, 'guess_rank1': True,
+                  'repeats': 3, 'dims': draw(st.sampled_from([[3, 2, 2, 2, 3], [2, 3, 2, 2, 3], [2, 2, 2, 2, 2, 2], [2, 2, 2, 2, 2]]))})
+        if c['normalize'] == 1:
+            c['normalize'] = 0
     return c
 
 
@@ -119,7 +131,7 @@ def setup_euler(c):
     if c.get('x_scale_exp', 0):
         # the schemes are linear in the state: an initial value of norm 1e-9 or 1e7 must work like one of norm 1
         x0.cores[0] = x0.cores[0] * 10.0 ** c['x_scale_exp']
-    guess = rnd_tt(rng, dims, mr, c['cplx'] and c.get('real_part') != 'guess', nonneg=markov)
+    guess = rnd_tt(rng, dims, [1] * (d + 1) if c.get('guess_rank1') else mr, c['cplx'] and c.get('real_part') != 'guess', nonneg=markov)
     return rng, A, op, x0, guess
 
 
@@ -182,6 +194,10 @@ def body_euler(c):
         lab.add('mixed_operand_dtypes')
     if c.get('tight_max_rank'):
         lab.add('max_rank_equals_largest_representable')
+    if c.get('guess_rank1') and c['tt_solver'] == 'mals' and c['scheme'] != 'explicit':
+        lab.add('mals_from_rank_one_guess')
+    if len(dims) >= 5:
+        lab.add('order>=5')
     return lab
 
 
